@@ -561,11 +561,8 @@ class ImplPool:
 
     def _stop(self):
         if self.p is not None:
-            try:
-                self.p.kill()
-                self.p.wait(5)
-            except Exception:
-                pass
+            import lib
+            lib.stop_proc(self.p)
             self.p = None
 
     def run(self, case):
